@@ -1272,8 +1272,18 @@ class PyCdlib:
         old = self._cdfp.tell()
         self._seek_to_extent(eltorito_boot_catalog_extent)
         data = self._cdfp.read(32)
+        num_read = 32
         while not self.eltorito_boot_catalog.parse(data):
-            data = self._cdfp.read(32)
+            sections = self.eltorito_boot_catalog.sections
+            if num_read == self.logical_block_size and sections and sections[-1].header_indicator == 0x91 and len(sections[-1].section_entries) == sections[-1].num_section_entries:
+                # The final Section Header and all of its entries have been
+                # seen and the block is used up, so there was no room for an
+                # empty entry to terminate the Boot Catalog.  What follows in
+                # the next block does not belong to the catalog.
+                data = b'\x00' * 32
+            else:
+                data = self._cdfp.read(32)
+            num_read += 32
         self._cdfp.seek(old)
 
     def _udf_assign_extents(self, udf_files, current_extent):
